@@ -246,6 +246,9 @@ pub struct SrcCore {
     pub pos: usize,
     pub lane: Vec<Step>,
     pub lane_pos: usize,
+    /// how many more times the lane is replayed from its start once it is exhausted (fault storms over long histories);
+    /// only after the last replay does the benign default take over
+    pub repeat_left: u32,
     pub layout: Layout,
     pub calls: u64,
     pub call_cap: u64,
@@ -272,6 +275,7 @@ impl SrcCore {
             pos: 0,
             lane,
             lane_pos: 0,
+            repeat_left: 0,
             layout,
             calls: 0,
             call_cap,
@@ -287,7 +291,7 @@ impl SrcCore {
         }))
     }
     pub fn lane_done(&self) -> bool {
-        self.lane_pos >= self.lane.len()
+        self.lane_pos >= self.lane.len() && self.repeat_left == 0
     }
     pub fn phase(&self) -> Phase {
         self.layout.phase(self.pos)
@@ -299,6 +303,10 @@ impl SrcCore {
         if self.calls > self.call_cap {
             self.cap_hit = true;
             return Some(Err(io::Error::new(io::ErrorKind::Other, "minisim: call cap exceeded")));
+        }
+        if self.lane_pos >= self.lane.len() && self.repeat_left > 0 && !self.lane.is_empty() {
+            self.repeat_left -= 1;
+            self.lane_pos = 0;
         }
         let step = if self.lane_pos < self.lane.len() {
             let s = self.lane[self.lane_pos];
@@ -540,6 +548,8 @@ pub struct SinkCore {
     pub data: Vec<u8>,
     pub lane: Vec<Step>,
     pub lane_pos: usize,
+    /// see `SrcCore::repeat_left`
+    pub repeat_left: u32,
     /// remaining capacity (full-disk model); `None` = unbounded
     pub room: Option<usize>,
     pub full_mode: FullMode,
@@ -569,6 +579,7 @@ impl SinkCore {
             data: Vec::new(),
             lane,
             lane_pos: 0,
+            repeat_left: 0,
             room,
             full_mode: FullMode::Error,
             calls: 0,
@@ -590,7 +601,7 @@ impl SinkCore {
         }))
     }
     pub fn lane_done(&self) -> bool {
-        self.lane_pos >= self.lane.len()
+        self.lane_pos >= self.lane.len() && self.repeat_left == 0
     }
     pub fn phase(&self) -> Phase {
         self.layout.phase(self.data.len())
@@ -612,6 +623,10 @@ impl SinkCore {
             return Some(Ok(0));
         }
         self.nonempty_offers += 1;
+        if self.lane_pos >= self.lane.len() && self.repeat_left > 0 && !self.lane.is_empty() {
+            self.repeat_left -= 1;
+            self.lane_pos = 0;
+        }
         let step = if self.lane_pos < self.lane.len() {
             let s = self.lane[self.lane_pos];
             self.lane_pos += 1;
